@@ -203,7 +203,7 @@ class Payload(ABC):
             "".join(
                 _safe_header(k) + ": " + _safe_header(v) + "\r\n"
                 for k, v in self.headers.items()
-            ).encode("utf-8")
+            ).encode("utf-8", "surrogateescape")
             + b"\r\n"
         )
 
